@@ -36,3 +36,16 @@ func (r *rng) bytes(n int) []byte {
 
 // fork derives an independent stream (for per-case seeds).
 func (r *rng) fork() *rng { return newRng(r.u64()) }
+
+// perm returns a pseudo-random permutation of 0..n-1.
+func (r *rng) perm(n int) []int {
+	p := make([]int, n)
+	for i := range p {
+		p[i] = i
+	}
+	for i := n - 1; i > 0; i-- {
+		j := r.intn(i + 1)
+		p[i], p[j] = p[j], p[i]
+	}
+	return p
+}
